@@ -226,3 +226,5 @@ TEXT["C04"]["note"] += " Every request is executed by two builds of the harness 
 TEXT["C05"]["note"] += " Every request is executed by two builds of the harness (zarrs with and without its async feature: the cfg(not(feature = async)) copies of the default partial decoders/encoders are what a default-feature build runs)."
 TEXT["C07"]["level"] += (" The asynchronous sharding partial decoder - a different algorithm from the synchronous one - is modelled and proved to return exactly what the synchronous decoder returns on every legal shard (Props/C07Shard: asyncShardPD_eq_shardPD; both err on wrong-size / out-of-value entries; its views tile the buffer); the async model runs on the raw stored shards of real arrays (c02s route=async).")
 TEXT["C17"]["level"] += (" Regions overhanging the array inside the grid extent are proved to be tiled as well (Props/C17Oob).")
+TEXT["C20"]["level"] += (" The sharding partial encoder (experimental partial encoding) is swept under faults for chains whose only top-level codec is sharding_indexed: every fault is an error, nothing panics, and a retry converges to the fault-free array (judged on decoded contents); the previous-or-intended clause is not claimed on that path.")
+TEXT["C20"]["note"] += " Known finding F-C20-K1: the sharding partial encoder's erase-then-write cases lose the shard when the write fails (experimental path; matched by the failing operation, so a different tear is still reported)."
